@@ -7,12 +7,13 @@ the innermost activation, which performs one failing operation inside optional b
               argument | class method | class constructor | list.map / list.filter callback |
               function of an imported module | method of a class of an imported module
     blocks    if / else / while / from around every call site and around the failing operation
-    kinds     Core fragment : assert, / and % by zero, get of nil, integer overflow (+ - * unary minus, MIN / -1,
+    kinds     Core fragment : assert, / and % by zero (int), get of nil, integer overflow (+ - * unary minus, MIN / -1,
                               +=)   -- known finding `overflow-is-a-panic`
               outside       : list / string index, remove, missing map key, failed conversions, string built-in
                               range / char-boundary / radix errors, repeat count, nil object, filter callback
                               clearing its list, index_of on maps, map inside a list used as key, byte / bigint
-                              overflow
+                              overflow; the zero-divisor matrix {/, %, /=, %=} x dividend {int, bigint, byte, float}
+                              x divisor {int 0, B0, 0b0, 0.0} (the 52 cells the compiler accepts)
 
 One tree (coregen encoding + a few extension nodes) is rendered to .ms; the expected result -- stdout
 prefix, the call chain innermost first with the block markers, the assert position, exit status -- is
@@ -274,6 +275,36 @@ OTHER_KINDS = {
     'overflow-bigint': [raws('bi = B170141183460469231731687303715884105727\nbj = bi + n\nr = 1')],
     'overflow-bigint-mul': [raws('bi = B170141183460469231731687303715884105727\nbj = bi * n\nr = 1')],
 }
+# the zero-divisor matrix: {/, %, /=, %=} x dividend kind x divisor kind, operands in variables (nothing is folded).
+# An op-assign form is accepted by the compiler only when the promoted kind is the dividend's kind.
+ZD_DIVIDEND = {'int': 'a: int = 7', 'bigint': 'a: bigint = B7', 'byte': 'a: byte = 0b111', 'float': 'a: float = 7.5'}
+ZD_ZERO = {'int': 'z: int = n - n', 'bigint': 'z: bigint = B3 - B3', 'byte': 'z: byte = 0b11 - 0b11', 'float': 'z: float = 1.5 - 1.5'}
+ZD_OPS = {'div': '/', 'rem': '%', 'div-assign': '/=', 'rem-assign': '%='}
+
+
+def zd_promoted(a, b):
+    if 'float' in (a, b):
+        return 'float'
+    if a == b:
+        return a
+    if a == 'byte':
+        return b
+    if b == 'byte':
+        return a
+    return 'bigint'
+
+
+ZERO_DIVISOR_KINDS = []
+for _opn, _op in ZD_OPS.items():
+    for _dk in ZD_DIVIDEND:
+        for _zk in ZD_ZERO:
+            if _opn.endswith('assign') and zd_promoted(_dk, _zk) != _dk:
+                continue
+            _stmt = ('q = a %s z' % _op) if not _opn.endswith('assign') else ('a %s z' % _op)
+            _k = 'zero-divisor:%s:%s:%s' % (_opn, _dk, _zk)
+            OTHER_KINDS[_k] = [raws('%s\n%s\n%s\nr = 1' % (ZD_DIVIDEND[_dk], ZD_ZERO[_zk], _stmt))]
+            ZERO_DIVISOR_KINDS.append(_k)
+
 P17 = ('class', 'P17', [('v', 'int')], ([], [raws('self.v = 1')]), [], False)
 
 
@@ -519,7 +550,8 @@ def all_plans(rng, quick):
         # stratified: every kind at every depth 0..6, two flavours rotating with (kind, depth)
         for ki, kind in enumerate(kinds):
             for d in range(7):
-                for off in ((0, 6) if d > 0 else (0,)):
+                # the 52 cells of the zero-divisor matrix: every cell at every depth, one flavour each
+                for off in ((0, 6) if d > 0 and kind not in ZERO_DIVISOR_KINDS else (0,)):
                     fl = FLAVOURS[(ki * 5 + d * 3 + off) % len(FLAVOURS)]
                     plans.append(make_plan(rng, kind, fl, d))
         # the Core stream (T1-T3): the kinds that are errors (a panicking run leaves no bytecode dump to replay on the
